@@ -2,9 +2,9 @@ package main
 
 import (
 	"fmt"
-	"os"
 	"go/token"
 	"go/types"
+	"os"
 	"sort"
 	"strings"
 
@@ -183,10 +183,10 @@ func recoveringDefer(fn *ssa.Function) *ssa.Defer {
 }
 
 type confineCtx struct {
-	c       *Ctx
-	memo    map[*ssa.Function]int // 0 unknown, 1 in progress, 2 confined, 3 not confined
-	why     map[*ssa.Function]string
-	exempt  map[*ssa.Function]string
+	c      *Ctx
+	memo   map[*ssa.Function]int // 0 unknown, 1 in progress, 2 confined, 3 not confined
+	why    map[*ssa.Function]string
+	exempt map[*ssa.Function]string
 }
 
 func harmlessCallee(cc *ssa.CallCommon) bool {
@@ -329,7 +329,7 @@ func ruleC38a(c *Ctx, r *Report) {
 	cf := &confineCtx{c: c, memo: map[*ssa.Function]int{}, why: map[*ssa.Function]string{}, exempt: map[*ssa.Function]string{}}
 	exemptNames := map[string]string{
 		"(*" + modPath + "/proxy/server.StatisticManager).recordBackendSQLTiming": "records three label strings and a timestamp into the stats package; no indexing or parsing of client data",
-		"(*" + modPath + "/util.ResourcePool).createResourceWithRetry$1":            "dials and handshakes with the backend from configuration; no client byte reaches it",
+		"(*" + modPath + "/util.ResourcePool).createResourceWithRetry$1":          "dials and handshakes with the backend from configuration; no client byte reaches it",
 	}
 	// the Server.Run accept loop's `go s.onConn(conn)` is part of the session path as well
 	var gos []Site
